@@ -507,7 +507,10 @@ Lemma mkeys_track_op cfg m o ob :
   match o with Issue _ _ => False | _ => True end -> mkeys (track_op cfg m o ob) = mkeys m.
 Proof.
   intros Ho. destruct o; cbn [track_op] in *; try contradiction; try reflexivity.
-  - destruct (nth_error (m_reqs m) r) as [x|]; [|reflexivity]. destruct (ri_stat x); try reflexivity; apply mkeys_ri_upd; orig.
+  - destruct (nth_error (m_reqs m) r) as [x|]; [|reflexivity].
+    destruct (ri_stat x); try reflexivity; (rewrite mkeys_ri_upd by orig); try reflexivity.
+    destruct (ri_popx x) as [c|]; [|reflexivity]. destruct (nth_error (m_conns m) c) as [y|]; [|reflexivity].
+    destruct (ci_share y); [reflexivity|]. apply mkeys_ci_upd. reflexivity.
   - destruct (holder_conn m r); [|reflexivity]. apply mkeys_ci_upd. reflexivity.
   - apply mkeys_ri_upd. orig.
   - apply mkeys_ci_upd. reflexivity.
